@@ -582,7 +582,11 @@ namespace
                     for (int guard = 0; guard < 100000; guard++)
                     {
                         bool ran = false;
-                        STIMER_PERIODIC(&st[ti], now) { ran = true; }
+                        // the time argument may be any expression (a conditional, a masked counter)
+                        long alt = now;
+                        if (guard % 3 == 0) { STIMER_PERIODIC(&st[ti], now) { ran = true; } }
+                        else if (guard % 3 == 1) { STIMER_PERIODIC(&st[ti], (ti & 1) ? now : alt) { ran = true; } }
+                        else { STIMER_PERIODIC(&st[ti], now | 0) { ran = true; } }
                         bool expect = m[ti].due(now);
                         if (ran != expect)
                             violate("C16/stimer_periodic", "stimer %d periodic ran=%d model due=%d", ti, (int)ran, (int)expect);
